@@ -103,11 +103,13 @@ def same_keys(got, want):
 
 
 def setop_case(P, ks, a):
+    an = common.flag(a['an']) if 'an' in a else False
+    bn = common.flag(a['bn']) if 'bn' in a else False
     with common.untraced():
-        _setop_case(P, a)
+        _setop_case(P, a, an, bn)
 
 
-def _setop_case(P, a):
+def _setop_case(P, a, an=False, bn=False):
     impl, ka, kb, na, nb = P['impl'], P['ka'], P['kb'], P['na'], P['nb']
     cl = classes(impl)
     mod = cl['module']
@@ -117,6 +119,12 @@ def _setop_case(P, a):
     ak = [K(a['a%d' % i], i if ka in CONT else None, 1) for i in range(na)]
     bk = [K(a['b%d' % i], i if kb in CONT else None, 2) for i in range(nb)]
     ctx = {'harness': 'setop_case', 'impl': impl, 'ka': ka, 'kb': kb, 'na': na, 'nb': nb}
+    # None, the smallest object key, as the first key of a container operand
+    if an and ak:
+        ak[0] = None
+    if bn and bk:
+        bk[0] = None
+    ctx.update(an=an, bn=bn)
     A, B = uniq(ak), uniq(bk)
     SetT, BucketT = cl['Set'], cl['Bucket']
 
